@@ -187,6 +187,8 @@ type c07Result struct {
 	Ran     int  // how many times the continuation ran
 	RanLate bool // continuation ran after Synchronize returned
 	RetAt   time.Duration
+	StartAt time.Duration // virtual time at which the call was started (staggered starts)
+	EndAt   time.Duration // virtual time when the driver stopped
 }
 
 type c07Info struct {
@@ -376,7 +378,8 @@ func runC07(c c07Case) *vh.Outcome {
 
 		root, cancel := context.WithCancel(context.Background())
 		defer cancel()
-		d := &sim.Driver{Net: net, Sched: &c.Sched, DrainAfterDone: true, HardStop: c07Deadline + 10*time.Second}
+		// staggered calls may start up to 120 steps (24 s of forced ticks) late; each has its own 30 s deadline
+		d := &sim.Driver{Net: net, Sched: &c.Sched, DrainAfterDone: true, HardStop: c07Deadline + 40*time.Second}
 		// observe what Byzantine members deliver to honest ones
 		d.BeforeDeliver = func(f *sim.Frame) bool {
 			if isByz[f.From] && !isByz[f.To] {
@@ -550,6 +553,9 @@ func runC07(c c07Case) *vh.Outcome {
 				results = append(results, res)
 			}
 			return &sim.Call{Name: fmt.Sprintf("sync@%d/%d", id, ti), Start: func(call *sim.Call) {
+				mu.Lock()
+				res.StartAt = d.Now()
+				mu.Unlock()
 				ctx, cn := context.WithTimeout(root, c07Deadline)
 				defer cn()
 				returned := false
@@ -613,6 +619,9 @@ func runC07(c c07Case) *vh.Outcome {
 			return len(net.Pending()) == 0
 		}
 		d.Run()
+		for _, r := range results {
+			r.EndAt = d.Now()
+		}
 		info.Frames = net.Sent()
 		if f := driverFailure("C07", d); f != nil {
 			fail = f
@@ -663,6 +672,11 @@ func runC07(c c07Case) *vh.Outcome {
 	}
 	for _, r := range results {
 		// return contract
+		if !r.Done && r.EndAt-r.StartAt < c07Deadline+5*time.Second {
+			// the driver stopped before this (late started) call's own deadline had passed: nothing to judge
+			o.Discard = "driver-stopped-before-the-call's-deadline"
+			return o
+		}
 		if !r.Done {
 			o.Fail = vh.Failf("C07/hang", "Synchronize of member %d on topic %d did not return by deadline+grace (case %+v)", r.Member, r.Topic, c07Brief(c))
 			return o
